@@ -313,6 +313,10 @@ def literal_docs(draw):
                 t = ' ' + t + '  '
             c['t'] = c['e'] = t
             c['k'] = 'lit'
+        elif c['k'] in ('note', 'rest') and draw(st.integers(0, 7)) == 0:
+            # a **kern / **root cell the kern lexer cannot even start on: still one node, with the literal cell text
+            t = draw(st.sampled_from(['\u20ac4c', '\u00fc', '\u65e5\u672c', '\u00df8', '\u00a7', '\u00bf4e', '\u3000', '\u00b0c']))
+            doc['rows'][i]['c'][k] = {'k': 'lit', 't': t, 'e': t, 'cat': None}
     return doc
 
 
